@@ -144,6 +144,11 @@ def run_scope(prop, geom, run, seed, tag):
          'base': base}
     if rc != 0:
         r['ok'] = False; r['error'] = 'harness failed: ' + out[-2000:]
+        if rc == 78 or 'C21-HANG' in out:
+            # a call made no progress although nothing interferes with it (watchdog of the harness)
+            import re as _re
+            mm = _re.search(r'C21-HANG: (.*)', out)
+            r['hang'] = 'C21-HANG: ' + (mm.group(1) if mm else 'a call did not return') + ' (exit %s)' % rc
         if rc == 77 or 'C18-GUARD' in out:
             # an access outside an exactly sized metadata buffer hit the guard page
             r['guard'] = 'C18-GUARD: the harness faulted on an access outside a metadata buffer (exit %s): %s' % (rc, out[-300:].strip())
@@ -340,7 +345,12 @@ def main():
             r = run_scope(prop, g, run, seed * 1000 + ri, f'r{ri}')
             runs.append({k: r.get(k) for k in ('args', 'geom', 'ok', 'lines', 'wall_s', 'error')})
             if r.get('error'):
-                if r.get('guard') and 'C18' in spec['oracles']:
+                if r.get('hang') and 'C21' in spec['oracles']:
+                    problems.append(('oracle', 'C21: ' + r['hang'],
+                                     {'kind': 'command', 'geom': g, 'violation': {'prop': 'C21', 'msg': r['hang']},
+                                      'command': [harness_bin(g)] + [a.replace('{seed}', str(seed * 1000 + ri)) for a in run['args']],
+                                      'replay_cmd': 'run the command: the watchdog ends it with exit 78 and names the call that hangs'}))
+                elif r.get('guard') and 'C18' in spec['oracles']:
                     problems.append(('oracle', 'C18: ' + r['guard'],
                                      {'kind': 'command', 'geom': g, 'violation': {'prop': 'C18', 'msg': r['guard']},
                                       'command': [harness_bin(g)] + [a.replace('{seed}', str(seed * 1000 + ri)) for a in run['args']],
